@@ -1045,9 +1045,12 @@ def transition_counter_deltas(ctx, rid):
             for s, t in terms:
                 if t[0] == "call" and t[1].endswith("TransitionCycle::maintenance_counter"):
                     continue
-                cs = shape.calls_of(t)
-                is_help = any(c.endswith(HELP) for c in cs)
-                is_link = not is_help and any(c.endswith("dead_head_distance_between") for c in cs)
+                # classified by the top of the term only (its operands reach far back through the cycle vector)
+                top = t
+                if top[0] == "call" and top[1].endswith("::in_meter") and top[2]:
+                    top = top[2][0]
+                is_help = top[0] == "call" and top[1].endswith(HELP)
+                is_link = top[0] == "call" and top[1].endswith("dead_head_distance_between")
                 want = None
                 if mode == "update" and is_help:
                     h = _find_calls(t, HELP)
@@ -1110,7 +1113,7 @@ def transition_counter_deltas(ctx, rid):
                 users = [c for c in fd.body.calls() if any(a.place is not None and a.place.local == ins.place.local for a in c.args)]
                 for u in users:
                     recv = shape.expr(fd, u.args[0]) if u.args else ("?",)
-                    rc = shape.calls_of(recv)
+                    rc = {recv[1]} if recv[0] == "call" else set()      # the call the closure is mapped over, not what feeds it
                     if any(x.endswith("::first") for x in rc):
                         seen += 1
                         if "start_depot" not in direct:
